@@ -305,6 +305,11 @@ def io_program(rng, pid, cfg, cs, n_ops, n_files=2, max_clusters=3):
         hs.append(h)
         sizes[h] = 0
         pos[h] = 0
+    if rng.random() < 0.5:
+        # calls on a file that is still empty: no extent, nothing to read, seeking anywhere lands at 0, truncation changes nothing
+        h = rng.choice(hs)
+        ops += [{"op": "extents", "h": h}, {"op": "read", "h": h, "len": 5}, {"op": "seek", "h": h, "from": "end", "off": rng.choice([0, 3, -1])},
+                {"op": "truncate", "h": h}, {"op": "flush", "h": h}]
     bnd = sorted({0, 1} | {k * cs + d for k in range(1, max_clusters + 1) for d in (-1, 0, 1)})
     lens = [0, 1, 2, cs - 1, cs, cs + 1, 2 * cs + 1, 7, 100]
     for _ in range(n_ops):
@@ -736,6 +741,14 @@ def format_requests(rng, quick=True):
         # (a label is given as raw 8.3 bytes: a first byte of 0x00 / 0xE5 / space would not be a label at all)
         add(rng.choice([100, 2880, 8192, 70000, 300000]), label=[rng.choice([65, 97, 5, 255, 46])] + [rng.choice([65, 97, 32, 229, 5, 255, 46]) for _ in range(10)],
             volid=rng.randrange(1 << 32), media=rng.choice([0xF0, 0xF8, 0xFF, 0x00]), tail=4096)
+    # 4b. the size taken from the device (no total_sectors option), geometry hints and drive number set
+    for k in range(24 if quick else 300):
+        kw = {"from_device": True} if k % 2 == 0 else {}
+        if k % 3 == 0:
+            kw.update(spt=rng.choice([0, 1, 63, 0xFFFF]), heads=rng.choice([0, 1, 255, 0xFFFF]), drive=rng.choice([0, 0x80, 0xFF]))
+        if k % 4 == 1:
+            kw["bps"] = rng.choice([1024, 4096])
+        add(rng.choice([42, 100, 2880, 8400, 70000, 140000, 1 << 21]), **kw)
     # 5. dense random grid
     for _ in range(300 if quick else 20000):
         bps = rng.choice(bps_list)
@@ -1745,6 +1758,22 @@ def first_mutation_program(rng, pid, cfg, cs, end="unmount"):
     ops.append({"op": "stats"})
     ops.append({"op": "unmount"})
     return {"id": pid, "cfg": cfg, "ops": ops, "origin": "first-mutation"}
+
+
+def nearly_full_volume(rng, ft):
+    """builder volume of the smallest size of its width in which a long BAD range leaves only a handful of clusters free (some at the
+    start, some at the very end of the table): out-of-space is reached within a few calls on FAT16 and FAT32 too, after a scan for a
+    free cluster that runs through the whole table"""
+    bps = 512
+    n = {12: rng.randrange(40, 90), 16: 4085 + rng.randrange(0, 30), 32: 65525 + rng.randrange(0, 30)}[ft]
+    head, tail_free = rng.randrange(6, 12), rng.randrange(0, 5)
+    vol = {"kind": "builder", "ft": ft, "bps": bps, "spc": 1, "n": n, "nfats": rng.choice([1, 2]), "pad": rng.choice(["zero", "eoc"]), "tail": 4096, "rootn": 64,
+           "bad": [[2 + head, n + 1 - tail_free]],
+           "tree": [{"kind": "f", "name": "seed.txt", "sfn": "SEED    TXT", "size": 600, "pat": 2}]}
+    if ft == 32:
+        vol["rsvd"] = 32
+        vol["fsinfo"] = {"free": rng.choice(["exact", "unknown"]), "next": rng.choice(["unknown", 2, n])}
+    return vol, bps
 
 
 def end_of_table_volume(rng, ft):
